@@ -194,7 +194,7 @@ impl Prop for C18 {
     type Input = Input;
 
     fn budget(tier: Tier) -> u64 {
-        tier.pick(150_000, 3_000_000)
+        tier.pick(800_000, 6_000_000)
     }
 
     fn strategy(_tier: Tier) -> BoxedStrategy<Case> {
